@@ -100,6 +100,10 @@ def run(chk, pid: str):
     for t in twins:
         ident, rel, pat, rep = t[:4]
         jobs.append(("twin", ident, (lambda rel=rel, pat=pat, rep=rep: (lambda tmp: _apply_regex(tmp, rel, pat, rep, 0)))()))
+    # behaviour-preserving refactorings written by maintainers-for-a-day (guard clauses, extracted helpers, comprehension <-> loop, renamed temporaries, ...):
+    # every property's check must stay silent on each of them
+    for d in sorted(glob.glob(os.path.join(VERIF, "selftest", "refactors", "*.diff"))):
+        jobs.append(("twin", "refactor:" + os.path.basename(d)[:-5], (lambda d=d: (lambda tmp: _apply_diff(tmp, d)))()))
     seen = set()
     uniq = []
     for j in jobs:
